@@ -110,6 +110,9 @@ def gen_plan(rng, run_index, tier, opts):
             tk["date_pos"] = rng.choice(["last_step", "beyond"])   # a date inside the last step / after the horizon pins everything
             now = T
             tk["now"] = T
+        if form in ("intidx", "intlist") and rng.random() < 0.4:
+            # indices are taken as given: any order, repeats allowed (the same set of steps)
+            tk["idx_order"] = rng.choice(["rev", "rot", "zip", "dup"])
         if form != "date" and rng.random() < 0.05:
             tk["steps"] = []   # an empty window pins nothing
             tk["empty"] = True
@@ -168,6 +171,21 @@ def bool_vars(op):
 
 
 # --------------------------------------------------------------------------- executor
+
+
+def _ordered(W, how):
+    """The steps of an index-form window in the order the plan asks for (same set of steps)."""
+    lst = sorted(W)
+    if how == "rev":
+        return lst[::-1]
+    if how == "rot":
+        k = len(lst) // 2
+        return lst[k:] + lst[:k]
+    if how == "zip":
+        return lst[1::2] + lst[0::2]
+    if how == "dup":
+        return lst + lst[:1]
+    return lst
 
 
 class Desk:
@@ -298,9 +316,9 @@ class Desk:
         elif tk["form"] == "npboollist":
             I = list(np.array([i in W for i in range(T)], dtype=bool))   # list(mask): numpy.bool_ scalars, not Python bools
         elif tk["form"] == "intidx":
-            I = np.array(sorted(W), dtype=int)       # "indices on timegrid" (docstring of fix_time_window)
+            I = np.array(_ordered(W, tk.get("idx_order")), dtype=int)       # "indices on timegrid" (docstring of fix_time_window)
         elif tk["form"] == "intlist":
-            I = [int(i) for i in sorted(W)]
+            I = [int(i) for i in _ordered(W, tk.get("idx_order"))]
             if not I:
                 I = np.array([], dtype=int)
         # --- twin: window-less set-up on fresh objects
